@@ -457,6 +457,53 @@ WalkCh(G, ch, i, seen, acc) ==
        WalkCh(G, ch, i + 1, rr.seen, acc \o (IF i > 1 THEN "," ELSE "") \o (IF cc.key = "" THEN "" ELSE cc.key \o ":") \o rr.s)
 ExportGraph(q) == Kind = "graph" /\ Commit(Cur, [op |-> "graph", g |-> Graphs[q], res |-> Walk(Graphs[q], 1, <<>>).s])
 
+\* ExportTo of a script-built graph into the Go type  T = struct{ Any interface{}; Next *T }.  An object reached through a *T slot
+\* becomes ONE T per object (also through cycles), an object reached through an interface{} slot becomes ONE map[string]interface{} per
+\* object; both representations of the same object may coexist, each is shared among the slots of its own kind, in whatever order
+\* the slots are filled.  The result names T nodes T0, T1, ... and maps M0, M1, ... by first visit (Any before Next).
+TGraphs == <<
+  \* untyped, typed, untyped again: the object behind both Any slots is one map (root.Any = root.Next = s; s.Any = s.Next = s)
+  << [k |-> "obj", ch |-> <<Edge("Any", 2), Edge("Next", 2)>>], [k |-> "obj", ch |-> <<Edge("Any", 2), Edge("Next", 2)>>] >>,
+  \* typed first, then twice untyped
+  << [k |-> "obj", ch |-> <<Edge("Next", 2), Edge("Any", 3)>>], [k |-> "obj", ch |-> <<Edge("Any", 3), Edge("Next", 1)>>],
+     [k |-> "obj", ch |-> <<Leaf("Any", 7), Edge("Next", 2)>>] >>,
+  \* a chain whose nodes all show the same object in their Any slot
+  << [k |-> "obj", ch |-> <<Edge("Any", 3), Edge("Next", 2)>>], [k |-> "obj", ch |-> <<Edge("Any", 3), Edge("Next", 1)>>],
+     [k |-> "obj", ch |-> <<Leaf("Any", 1)>>] >>,
+  \* self cycle through both kinds of slot
+  << [k |-> "obj", ch |-> <<Edge("Any", 1), Edge("Next", 1)>>] >>
+>>
+Child(G, n, key) == IF \E i \in 1..Len(G[n].ch) : G[n].ch[i].key = key
+                    THEN G[n].ch[CHOOSE i \in 1..Len(G[n].ch) : G[n].ch[i].key = key] ELSE [key |-> key, to |-> -1, val |-> 0]
+Pos(seq, n) == (CHOOSE i \in 1..Len(seq) : seq[i] = n) - 1
+Has(seq, n) == \E i \in 1..Len(seq) : seq[i] = n
+RECURSIVE WalkM(_, _, _), WalkT(_, _, _)
+\* sn = [t |-> typed nodes seen, m |-> map nodes seen]
+WalkM(G, n, sn) ==
+  IF Has(sn.m, n) THEN [s |-> "#M" \o ToString(Pos(sn.m, n)), sn |-> sn]
+  ELSE LET id == Len(sn.m)
+           s1 == [sn EXCEPT !.m = Append(@, n)]
+           a == Child(G, n, "Any")
+           ra == IF a.to = -1 THEN [s |-> "", sn |-> s1]
+                 ELSE IF a.to = 0 THEN [s |-> "Any:" \o ToString(a.val), sn |-> s1]
+                 ELSE LET wa == WalkM(G, a.to, s1) IN [s |-> "Any:" \o wa.s, sn |-> wa.sn]
+           x == Child(G, n, "Next")
+           rx == IF x.to = -1 THEN [s |-> "", sn |-> ra.sn]
+                 ELSE LET wx == WalkM(G, x.to, ra.sn) IN [s |-> "Next:" \o wx.s, sn |-> wx.sn]
+       IN [s |-> "M" \o ToString(id) \o "{" \o ra.s \o (IF ra.s # "" /\ rx.s # "" THEN "," ELSE "") \o rx.s \o "}", sn |-> rx.sn]
+WalkT(G, n, sn) ==
+  IF Has(sn.t, n) THEN [s |-> "#T" \o ToString(Pos(sn.t, n)), sn |-> sn]
+  ELSE LET id == Len(sn.t)
+           s1 == [sn EXCEPT !.t = Append(@, n)]
+           a == Child(G, n, "Any")
+           ra == IF a.to = -1 THEN [s |-> "nil", sn |-> s1]
+                 ELSE IF a.to = 0 THEN [s |-> ToString(a.val), sn |-> s1]
+                 ELSE WalkM(G, a.to, s1)
+           x == Child(G, n, "Next")
+           rx == IF x.to = -1 THEN [s |-> "nil", sn |-> ra.sn] ELSE WalkT(G, x.to, ra.sn)
+       IN [s |-> "T" \o ToString(id) \o "{Any:" \o ra.s \o ",Next:" \o rx.s \o "}", sn |-> rx.sn]
+ExportGraphTo(q) == Kind = "graph" /\ Commit(Cur, [op |-> "graphTo", g |-> TGraphs[q], res |-> WalkT(TGraphs[q], 1, [t |-> <<>>, m |-> <<>>]).s])
+
 Next ==
   \/ On("get") /\ \E i \in 0..(Len(w) + 1) : ARead(i)
   \/ On("set") /\ \E i \in 0..(Len(w) + 1), v \in Vals : (i >= Len(w) => v \in GoodVals) /\ (i > Len(w) => Rich = 1) /\ ASet(i, v)
@@ -479,6 +526,7 @@ Next ==
        \/ On("goPut") /\ GoMPut(k, IF Kind = "msp" THEN "p2" ELSE 9)
   \/ On("hostile") /\ \E m \in HostileOps : Hostile(m)
   \/ \E q \in 1..Len(Graphs) : ExportGraph(q)
+  \/ \E q \in 1..Len(TGraphs) : ExportGraphTo(q)
 
 Spec == Init /\ [][Next]_vars
 
